@@ -250,8 +250,14 @@ impl<'a> Eval<'a> {
         }
         let n = n as usize;
         let mut run = 0;
+        // sampled along the harness's own interpolation (component by component whatever the
+        // weights), not the library's: a library that interpolates wrongly must not be asked
+        // where the segment runs
+        if crate::spaces::harness_interp(geo.spec(), a, b, 0.5).is_none() {
+            return None;
+        }
         for i in 0..=n {
-            let q = geo.interp(a, b, i as f64 / n as f64);
+            let Some(q) = crate::spaces::harness_interp(geo.spec(), a, b, i as f64 / n as f64) else { return None };
             if geo.valid(w, &q) {
                 run = 0;
             } else {
